@@ -29,6 +29,11 @@ def call_value(I, f, args, kwargs, fr, site):
         c = E.opaque_call_contract(f.tag)
         if c:
             return apply_contract(I, c, f.tag, [f] + list(args), kwargs, fr, site)
+        if E.contract_of(f.tag):
+            return apply_contract(I, E.contract_of(f.tag), f.tag, list(args), kwargs, fr, site)
+        if getattr(E, "auto_opaque", False) and f.tag.startswith("lib:"):
+            E.trusted_used.add("auto-opaque library call " + f.tag)
+            return VOpaque(f.tag, I.st.fresh_int("lib_call"))
         raise Unsupported("call of opaque %s" % f.tag)
     if not isinstance(f, VFunc):
         if fr.spec is False and isinstance(f, VNone):
@@ -60,6 +65,11 @@ def call_value(I, f, args, kwargs, fr, site):
         return inline_call(I, finfo, full_args, kwargs, fr, site, f)
     if finfo is not None:
         raise Unsupported("call of %s: no contract and not marked inline" % qn)
+    if getattr(E, "auto_opaque", False) and not qn.startswith("paramiko."):
+        # library call outside the verified code: assumed effect-free on paramiko state, total, result unconstrained
+        E.trusted_used.add("auto-opaque library call " + qn)
+        tag = "lib"
+        return VOpaque(tag + ":" + qn.rsplit(".", 1)[-1], I.st.fresh_int("lib_" + qn.rsplit(".", 1)[-1]))
     raise Unsupported("call of unknown function %s" % qn)
 
 
@@ -136,6 +146,9 @@ def instantiate(I, cls, args, kwargs, fr, site):
             ex.fields[k] = v
         E.exception_fields(I, ex, args, kwargs)
         return ex
+    if getattr(E, "auto_opaque", False) and not qn.startswith("paramiko.") and not E.contract_of(qn + ".__init__"):
+        E.trusted_used.add("auto-opaque library class " + qn)
+        return VOpaque("lib:" + qn.rsplit(".", 1)[-1], st.fresh_int("libobj"))
     if qn in E.src.classes or E.class_info(qn):
         r = st.alloc(qn)
         init = E.find_attr(qn, "__init__")
@@ -482,6 +495,8 @@ def _intf(I, self, args, kw, fr, site):
         return VInt(t)
     if isinstance(v, VNone):
         I.raise_py("TypeError", "int() argument must be a string or a number, not 'NoneType'", site)
+    if isinstance(v, VOpaque) and getattr(I.E, "auto_opaque", False):
+        return VInt(I.st.fresh_int("int_of_lib"))
     raise Unsupported("int(%s)" % I.type_name(v))
 
 
@@ -1076,7 +1091,7 @@ def _d_update(I, self, args, kw, fr, site):
 
 
 # ---- int methods
-bitlen = z3.Function("bitlen", smt.Int, smt.Int)
+bitlen = z3.Function("uf_bitlen", smt.Int, smt.Int)
 
 
 @intrinsic("int.bit_length")
